@@ -13,32 +13,38 @@ namespace Redress.Props.C12Fwd
 open Redress.Forwarding
 
 def expected : List Expect :=
-  [ ⟨"wrappers.RetryPolicy.call", "self._policy.call", .sameName, true⟩,
-    ⟨"wrappers.RetryPolicy.execute", "self._policy.execute", .sameName, true⟩,
-    ⟨"wrappers.RetryPolicy.context", "self._policy.context", .sameName, true⟩,
-    ⟨"wrappers.AsyncRetryPolicy.call", "self._policy.call", .sameName, true⟩,
-    ⟨"wrappers.AsyncRetryPolicy.execute", "self._policy.execute", .sameName, true⟩,
-    ⟨"wrappers.AsyncRetryPolicy.context", "self._policy.context", .sameName, true⟩,
-    ⟨"wrappers.RetryPolicy.from_config", "cls", .configAttr, false⟩,
-    ⟨"wrappers.AsyncRetryPolicy.from_config", "cls", .configAttr, false⟩,
-    ⟨"retry_sync.Retry.from_config", "cls", .configAttr, false⟩,
-    ⟨"retry_async.AsyncRetry.from_config", "cls", .configAttr, false⟩,
-    ⟨"context._RetryContext.call", "self.policy.call", .selfAttr, true⟩,
-    ⟨"context._AsyncRetryContext.call", "self.policy.call", .selfAttr, true⟩,
-    ⟨"context._PolicyContext.call", "self.policy.call", .selfAttr, true⟩,
-    ⟨"context._AsyncPolicyContext.call", "self.policy.call", .selfAttr, true⟩,
-    ⟨"retry_sync.Retry.context", "_RetryContext", .positionalAfterSelf, true⟩,
-    ⟨"retry_async.AsyncRetry.context", "_AsyncRetryContext", .positionalAfterSelf, true⟩,
-    ⟨"policy.Policy.context", "_PolicyContext", .positionalAfterSelf, true⟩,
-    ⟨"async_policy.AsyncPolicy.context", "_AsyncPolicyContext", .positionalAfterSelf, true⟩,
-    ⟨"policy.Policy.call", "self.retry.call", .sameName, true⟩,
-    ⟨"async_policy.AsyncPolicy.call", "self.retry.call", .sameName, true⟩ ]
+  [ ⟨"wrappers.RetryPolicy.call", "self._policy.call", .sameName, true, []⟩,
+    ⟨"wrappers.RetryPolicy.execute", "self._policy.execute", .sameName, true, []⟩,
+    ⟨"wrappers.RetryPolicy.context", "self._policy.context", .sameName, true, []⟩,
+    ⟨"wrappers.AsyncRetryPolicy.call", "self._policy.call", .sameName, true, []⟩,
+    ⟨"wrappers.AsyncRetryPolicy.execute", "self._policy.execute", .sameName, true, []⟩,
+    ⟨"wrappers.AsyncRetryPolicy.context", "self._policy.context", .sameName, true, []⟩,
+    ⟨"wrappers.RetryPolicy.from_config", "cls", .configAttr, false, []⟩,
+    ⟨"wrappers.AsyncRetryPolicy.from_config", "cls", .configAttr, false, []⟩,
+    ⟨"retry_sync.Retry.from_config", "cls", .configAttr, false, []⟩,
+    ⟨"retry_async.AsyncRetry.from_config", "cls", .configAttr, false, []⟩,
+    ⟨"context._RetryContext.call", "self.policy.call", .selfAttr, true, []⟩,
+    ⟨"context._AsyncRetryContext.call", "self.policy.call", .selfAttr, true, []⟩,
+    ⟨"context._PolicyContext.call", "self.policy.call", .selfAttr, true, []⟩,
+    ⟨"context._AsyncPolicyContext.call", "self.policy.call", .selfAttr, true, []⟩,
+    ⟨"retry_sync.Retry.context", "_RetryContext", .positionalAfterSelf, true, []⟩,
+    ⟨"retry_async.AsyncRetry.context", "_AsyncRetryContext", .positionalAfterSelf, true, []⟩,
+    ⟨"policy.Policy.context", "_PolicyContext", .positionalAfterSelf, true, []⟩,
+    ⟨"async_policy.AsyncPolicy.context", "_AsyncPolicyContext", .positionalAfterSelf, true, []⟩,
+    ⟨"policy.Policy.call", "self.retry.call", .sameName, true, []⟩,
+    ⟨"async_policy.AsyncPolicy.call", "self.retry.call", .sameName, true, []⟩,
+    -- the `@retry` closure: every constructor option of the sugar class is given (the strategy under its
+    -- computed name), every per-call option `retry()` accepts is passed on (the operation under its computed name)
+    ⟨"decorator.retry.RetryPolicy()", "RetryPolicy", .sameName, true, [("strategy", "effective_strategy")]⟩,
+    ⟨"decorator.retry.AsyncRetryPolicy()", "AsyncRetryPolicy", .sameName, true, [("strategy", "effective_strategy")]⟩,
+    ⟨"decorator.retry.policy.call", "policy.call", .sameName, true, [("operation", "op_name")]⟩,
+    ⟨"decorator.retry.async_policy.call", "async_policy.call", .sameName, true, [("operation", "op_name")]⟩ ]
 
 /-! What `allOk` gives for one site, in logical form. -/
 
 /-- a well-forwarding `sameName` site passes each of its options on as the keyword of the same name -/
 theorem sameName_forwards (e : Expect) (s : Site) (h : s.ok e = true) (hr : e.rule = .sameName)
-    (p : String) (hp : p ∈ s.options) : (p, p) ∈ s.keywords := by
+    (p : String) (hp : p ∈ s.options) : (p, (e.alias.lookup p).getD p) ∈ s.keywords := by
   unfold Site.ok at h
   simp only [Bool.and_eq_true] at h
   have h2 := h.1.2
@@ -74,7 +80,7 @@ theorem calls_expected (e : Expect) (s : Site) (h : s.ok e = true) : s.callee = 
   simpa using h.1.1.2
 
 /-- non-vacuity / a site that drops one option is rejected -/
-example : Site.ok ⟨"x", "self._policy.call", .sameName, true⟩
+example : Site.ok ⟨"x", "self._policy.call", .sameName, true, []⟩
     { name := "x", options := ["a", "b"], calleeOptions := ["a", "b"], callee := "self._policy.call",
       positional := ["func"], keywords := [("a", "a")] } = false := by decide
 
